@@ -2,6 +2,7 @@
 from __future__ import annotations
 
 import logging
+from copy import copy
 
 from .const import *
 from .exceptions import InverterError
@@ -168,7 +169,7 @@ class ES(Inverter):
 
     def __init__(self, host: str, port: int, comm_addr: int = 0, timeout: int = 1, retries: int = 3):
         super().__init__(host, port, comm_addr if comm_addr else 0xf7, timeout, retries)
-        self._settings: dict[str, Sensor] = {s.id_: s for s in self.__all_settings}
+        self._settings: dict[str, Sensor] = {s.id_: copy(s) for s in self.__all_settings}
 
     def _supports_eco_mode_v2(self) -> bool:
         if self.arm_version < 14:
@@ -199,7 +200,7 @@ class ES(Inverter):
             logger.exception("Error decoding firmware version %s.", self.firmware)
 
         if self._supports_eco_mode_v2():
-            self._settings.update({s.id_: s for s in self.__settings_arm_fw_14})
+            self._settings.update({s.id_: copy(s) for s in self.__settings_arm_fw_14})
 
     async def read_runtime_data(self) -> dict[str, Any]:
         response = await self._read_from_socket(self._READ_DEVICE_RUNNING_DATA)
